@@ -81,7 +81,10 @@ pub fn make_case(seed: u64, idx: u64, class: Class, sys: &SysZones) -> Option<(C
             Case { label: label.clone(), model, tzif: bytes.clone(), rule: None, tight: false }
         }
         Class::Synth => {
-            let cfg = ZoneGenCfg { limit: 86_399, leaps: false, extreme_times: false, max_trans: 300 };
+            // (extreme_times: now and then the first or last transition lies at the far ends of the
+            // 64-bit range; the probes stay in the representable range, where such a zone must
+            // still answer from its table)
+            let cfg = ZoneGenCfg { limit: 86_399, leaps: false, extreme_times: true, max_trans: 300 };
             let g = gen::gen_zone(&mut rng, &cfg);
             let (bytes, _) = tzif::write(&g.model, &g.opts);
             Case {
